@@ -15,7 +15,7 @@ pub fn meta(_ctx: &Ctx) -> Meta {
     }
 }
 
-pub fn nets() -> Vec<Net> {
+pub fn nets(thorough: bool) -> Vec<Net> {
     let mut out = Vec::new();
     let acts = [Act::Linear, Act::Relu, Act::Tanh];
     for act in acts {
@@ -41,7 +41,7 @@ pub fn nets() -> Vec<Net> {
         settings.push((Dims::Flat(4), vec![L::Dense { n: 9, act: Act::Linear, bias: false, drop: None }], vec![conv(1)]));
         for (si, (input, before, list)) in settings.into_iter().enumerate() {
             // beyond the small bound: L = 5..9 for the dense lists and the first convolutional one
-            let loop_counts: Vec<usize> = if si < 2 || si == 3 { (1..=9).collect() } else { (1..=4).collect() };
+            let loop_counts: Vec<usize> = if thorough || si < 2 || si == 3 { (1..=9).collect() } else { (1..=4).collect() };
             for loops in loop_counts {
                 for inskips in [false, true] {
                     for outskips in [false, true] {
@@ -116,8 +116,9 @@ pub fn check(seed: u64, case: &Kv, rep: &mut Report) {
 }
 
 pub fn run(ctx: &Ctx) -> Report {
-    let ns = nets();
-    let cs: Vec<Kv> = ns.iter().flat_map(|n| (0..2).map(move |v| Kv::new().put("net", n.name()).put("val", v))).collect();
+    let ns = nets(ctx.tier.thorough());
+    let vals = if ctx.tier.thorough() { 4 } else { 2 };
+    let cs: Vec<Kv> = ns.iter().flat_map(|n| (0..vals).map(move |v| Kv::new().put("net", n.name()).put("val", v))).collect();
     let seed = ctx.seed;
     let chunks: Vec<&[Kv]> = cs.chunks(128).collect();
     let parts = par_map(&chunks, |_, c| {
